@@ -773,4 +773,305 @@ theorem parse_net_range (s : List Char) (a : Addr) (h : parse s = .ok a) :
   unfold WFAddr at this
   cases hty : a.ty <;> simp [hty, hn, netOK] at this <;> omega
 
+/-! ## print_parse -/
+
+/-- what the recogniser sees in the printed station part -/
+structure StationText (bs : Bytes) (s : List Char) (b : Body) : Prop where
+  body : matchBody s = some b
+  val : ∃ info, interpBody b = .ok (some bs, info)
+  nl : noNl s = true
+  nostar : ∀ r, s ≠ '*' :: r
+  nocolon : ∀ r, (digits s).2 ≠ ':' :: r
+  notstar : b ≠ .star
+
+theorem printDec_head (n : Nat) : ∀ r, printDec n ≠ '*' :: r := by
+  obtain ⟨hall, _, _, c, t, he, _⟩ := printDec_spec n
+  intro r e
+  rw [he] at hall e
+  have := ne_star_of_isDig (head_isDig hall)
+  simp at e; exact this e.1
+
+theorem be16_pair (p0 p1 : UInt8) : be16 (p0.toNat * 256 + p1.toNat) = [p0, p1] := by
+  have h0 := p0.toNat_lt; have h1 := p1.toNat_lt
+  have e1 : (p0.toNat * 256 + p1.toNat) / 256 % 256 = p0.toNat := by omega
+  have e2 : (p0.toNat * 256 + p1.toNat) % 256 = p1.toNat := by omega
+  simp [be16, e1, e2]
+
+theorem be32_quad (b0 b1 b2 b3 : UInt8) :
+    be32 (b0.toNat * 16777216 + b1.toNat * 65536 + b2.toNat * 256 + b3.toNat) = [b0, b1, b2, b3] := by
+  have h0 := b0.toNat_lt; have h1 := b1.toNat_lt; have h2 := b2.toNat_lt; have h3 := b3.toNat_lt
+  have e0 : (b0.toNat * 16777216 + b1.toNat * 65536 + b2.toNat * 256 + b3.toNat) / 16777216 % 256
+      = b0.toNat := by omega
+  have e1 : (b0.toNat * 16777216 + b1.toNat * 65536 + b2.toNat * 256 + b3.toNat) / 65536 % 256
+      = b1.toNat := by omega
+  have e2 : (b0.toNat * 16777216 + b1.toNat * 65536 + b2.toNat * 256 + b3.toNat) / 256 % 256
+      = b2.toNat := by omega
+  have e3 : (b0.toNat * 16777216 + b1.toNat * 65536 + b2.toNat * 256 + b3.toNat) % 256
+      = b3.toNat := by omega
+  simp [be32, e0, e1, e2, e3]
+
+/-- a single octet prints as its decimal value -/
+theorem stationText_one (x : UInt8) : StationText [x] (printDec x.toNat) (.dec (printDec x.toNat)) where
+  body := matchBody_dec _ (printDec_ne_nil _) (printDec_allDigits _)
+  val := by
+    have := x.toNat_lt
+    have h : ¬ x.toNat ≥ 256 := by omega
+    exact ⟨none, by simp [interpBody, decVal_printDec, h]⟩
+  nl := noNl_of_allDigits _ (printDec_allDigits _)
+  nostar := printDec_head _
+  nocolon := by simp [digits_self _ (printDec_allDigits _)]
+  notstar := by simp
+
+/-- any octet string of one or more octets, as `0x…` -/
+theorem stationText_hex (bs : Bytes) (hne : bs ≠ []) :
+    StationText bs ('0' :: 'x' :: hexOf bs) (.hex bs) where
+  body := matchBody_hex _ bs (hexBytes_hexOf bs) hne
+  val := ⟨none, by simp [interpBody]⟩
+  nl := by simp [noNl_cons, noNl_hexOf]
+  nostar := by simp
+  nocolon := by simp [digits_0x]
+  notstar := by simp
+
+/-- the optional `:port` of `__str__` -/
+def portOpt (port : Nat) : Option (List Char) :=
+  if port ≠ 47808 then some (printDec port) else none
+
+/-- six octets with a port in 47808..47823 as dotted quad (and port unless 47808) -/
+theorem stationText_ip (b0 b1 b2 b3 p0 p1 : UInt8)
+    (hhi : p0.toNat * 256 + p1.toNat ≤ 47823) :
+    StationText [b0, b1, b2, b3, p0, p1]
+      (ipText (printDec b0.toNat) (printDec b1.toNat) (printDec b2.toNat) (printDec b3.toNat) none
+        (portOpt (p0.toNat * 256 + p1.toNat)))
+      (.ip (printDec b0.toNat) (printDec b1.toNat) (printDec b2.toNat) (printDec b3.toNat) none
+        (portOpt (p0.toNat * 256 + p1.toNat))) := by
+  have hd : ∀ n, printDec n ≠ [] ∧ allDigits (printDec n) = true :=
+    fun n => ⟨printDec_ne_nil n, printDec_allDigits n⟩
+  have hpo : optDigits (portOpt (p0.toNat * 256 + p1.toNat)) = true := by
+    unfold portOpt
+    split
+    · simp [optDigits, printDec_allDigits, printDec_ne_nil]
+    · rfl
+  have hpv : optVal (portOpt (p0.toNat * 256 + p1.toNat)) 47808 = p0.toNat * 256 + p1.toNat := by
+    unfold portOpt
+    split
+    · simp [optVal, decVal_printDec]
+    · rename_i h; simp at h; simp [optVal, h]
+  have hdig : digits (ipText (printDec b0.toNat) (printDec b1.toNat) (printDec b2.toNat)
+      (printDec b3.toNat) none (portOpt (p0.toNat * 256 + p1.toNat))) = (printDec b0.toNat, _) :=
+    digits_append _ _ (printDec_allDigits _) (by simp [noDigHead, isDig_dot])
+  have h0 := b0.toNat_lt; have h1 := b1.toNat_lt; have h2 := b2.toNat_lt; have h3 := b3.toNat_lt
+  exact {
+    body := matchBody_ip _ _ _ _ none _ (hd _) (hd _) (hd _) (hd _) rfl hpo
+    val := by
+      have e := interpBody_ip (printDec b0.toNat) (printDec b1.toNat) (printDec b2.toNat)
+        (printDec b3.toNat) none (portOpt (p0.toNat * 256 + p1.toNat))
+        b0.toNat b1.toNat b2.toNat b3.toNat
+        (atonPart_printDec _) (atonPart_printDec _) (atonPart_printDec _) (atonPart_printDec _)
+        h0 h1 h2 h3 (by simp [optVal]) (by rw [hpv]; omega)
+      rw [hpv, be32_quad, be16_pair] at e
+      exact ⟨_, e⟩
+    nl := noNl_ipText _ _ _ _ none _ (printDec_allDigits _) (printDec_allDigits _)
+      (printDec_allDigits _) (printDec_allDigits _) rfl hpo
+    nostar := by
+      intro r e
+      obtain ⟨hall, _, _, c, t, he, _⟩ := printDec_spec b0.toNat
+      rw [he] at hall
+      have := ne_star_of_isDig (head_isDig hall)
+      simp [ipText, he] at e
+      exact this e.1
+    nocolon := by simp [hdig]
+    notstar := by simp }
+
+theorem printStation_ip (b0 b1 b2 b3 p0 p1 : UInt8)
+    (hlo : 47808 ≤ p0.toNat * 256 + p1.toNat) (hhi : p0.toNat * 256 + p1.toNat ≤ 47823) :
+    printStation [b0, b1, b2, b3, p0, p1] =
+      .ok (ipText (printDec b0.toNat) (printDec b1.toNat) (printDec b2.toNat) (printDec b3.toNat)
+        none (portOpt (p0.toNat * 256 + p1.toNat))) := by
+  have h0 := b0.toNat_lt; have h1 := b1.toNat_lt; have h2 := b2.toNat_lt; have h3 := b3.toNat_lt
+  have hport : beVal [p0, p1] = p0.toNat * 256 + p1.toNat := by simp [beVal]
+  have hipv : beVal [b0, b1, b2, b3] =
+      b0.toNat * 16777216 + b1.toNat * 65536 + b2.toNat * 256 + b3.toNat := by
+    simp [beVal]; omega
+  have o0 : (b0.toNat * 16777216 + b1.toNat * 65536 + b2.toNat * 256 + b3.toNat) / 16777216 % 256
+      = b0.toNat := by omega
+  have o1 : (b0.toNat * 16777216 + b1.toNat * 65536 + b2.toNat * 256 + b3.toNat) / 65536 % 256
+      = b1.toNat := by omega
+  have o2 : (b0.toNat * 16777216 + b1.toNat * 65536 + b2.toNat * 256 + b3.toNat) / 256 % 256
+      = b2.toNat := by omega
+  have o3 : (b0.toNat * 16777216 + b1.toNat * 65536 + b2.toNat * 256 + b3.toNat) % 256
+      = b3.toNat := by omega
+  have hcond : ([b0, b1, b2, b3, p0, p1] : Bytes).length = 6 ∧
+      47808 ≤ p0.toNat * 256 + p1.toNat ∧ p0.toNat * 256 + p1.toNat ≤ 47823 := ⟨rfl, hlo, hhi⟩
+  have hdrop : ([b0, b1, b2, b3, p0, p1] : Bytes).drop
+      (([b0, b1, b2, b3, p0, p1] : Bytes).length - 2) = [p0, p1] := rfl
+  have htake : ([b0, b1, b2, b3, p0, p1] : Bytes).take 4 = [b0, b1, b2, b3] := rfl
+  unfold printStation
+  simp only [hdrop, htake, hport, hipv, if_pos hcond, ntoa, o0, o1, o2, o3]
+  unfold portOpt ipText
+  by_cases hp : p0.toNat * 256 + p1.toNat = 47808
+  · simp [hp, optSuffix]
+  · simp [hp, optSuffix]
+
+/-- the printed station part of every non-empty octet string is recognised
+    and yields the same octets -/
+theorem printStation_text (bs : Bytes) (hne : bs ≠ []) :
+    ∃ s b, printStation bs = .ok s ∧ StationText bs s b := by
+  match bs, hne with
+  | [x], _ => exact ⟨_, _, rfl, stationText_one x⟩
+  | x :: y :: t, _ =>
+    by_cases hip : (x :: y :: t).length = 6 ∧
+        47808 ≤ beVal ((x :: y :: t).drop ((x :: y :: t).length - 2)) ∧
+        beVal ((x :: y :: t).drop ((x :: y :: t).length - 2)) ≤ 47823
+    · obtain ⟨hlen, hlo, hhi⟩ := hip
+      match t, hlen with
+      | [b2, b3, p0, p1], _ =>
+        have hdrop : ([x, y, b2, b3, p0, p1] : Bytes).drop
+            (([x, y, b2, b3, p0, p1] : Bytes).length - 2) = [p0, p1] := rfl
+        rw [hdrop] at hlo hhi
+        have hport : beVal [p0, p1] = p0.toNat * 256 + p1.toNat := by simp [beVal]
+        rw [hport] at hlo hhi
+        exact ⟨_, _, printStation_ip x y b2 b3 p0 p1 hlo hhi, stationText_ip x y b2 b3 p0 p1 hhi⟩
+    · refine ⟨_, _, ?_, stationText_hex _ (by simp)⟩
+      simp only [printStation, if_neg hip]
+
+theorem interp_station (p : Pfx) (b : Body) (bs : Bytes) (info : Option IPInfo)
+    (hb : b ≠ .star) (hv : interpBody b = .ok (some bs, info)) :
+    (p = .none → interp (p, b) = .ok ⟨.localStation, none, some bs, info⟩) ∧
+    (∀ ns, p = .net ns → decVal ns < 65535 →
+      interp (p, b) = .ok ⟨.remoteStation, some (decVal ns), some bs, info⟩) := by
+  constructor
+  · intro hp; subst hp
+    cases b <;> simp_all [interp, interpPfx]
+  · intro ns hp hn; subst hp
+    have h' : ¬ (65535 ≤ decVal ns) := by omega
+    cases b with
+    | star => exact absurd rfl hb
+    | dec ds => simp [interp, interpPfx, hv, h']
+    | hex x => simp [interp, interpPfx, hv, h']
+    | ip x y z w m q => simp [interp, interpPfx, hv, h']
+
+/-- **print_parse**: every well-formed address (any type, any network
+    0..65534, any octet string of one or more octets) prints to a text that
+    parses to an address with the same type, network and octets. -/
+theorem print_parse (a : Addr) (h : WFAddr a) :
+    ∃ s a', printAddr a = .ok s ∧ parse s = .ok a' ∧ eqKey a' = eqKey a := by
+  obtain ⟨ty, net, addr, ip⟩ := a
+  cases ty with
+  | null => simp [WFAddr] at h
+  | localBroadcast =>
+    simp [WFAddr] at h; obtain ⟨rfl, rfl⟩ := h
+    exact ⟨_, _, rfl, parse_fields_star, rfl⟩
+  | globalBroadcast =>
+    simp [WFAddr] at h; obtain ⟨rfl, rfl⟩ := h
+    exact ⟨_, _, rfl, parse_fields_global, rfl⟩
+  | localStation =>
+    simp only [WFAddr] at h
+    obtain ⟨rfl, hs⟩ := h
+    cases addr with
+    | none => simp [stationOK] at hs
+    | some bs =>
+      obtain ⟨s, b, hp, st⟩ := printStation_text bs hs
+      obtain ⟨info, hv⟩ := st.val
+      refine ⟨s, ⟨.localStation, none, some bs, info⟩, by simp [printAddr, hp], ?_, rfl⟩
+      rw [parse_plain s b (st.nostar _) st.nl st.body (fun r => st.nostar _) st.nocolon]
+      exact (interp_station .none b bs info st.notstar hv).1 rfl
+  | remoteBroadcast =>
+    simp only [WFAddr] at h
+    obtain ⟨hn, rfl⟩ := h
+    cases net with
+    | none => simp [netOK] at hn
+    | some n =>
+      have hn' : n < 65535 := hn
+      refine ⟨printDec n ++ [':', '*'], ⟨.remoteBroadcast, some n, none, none⟩,
+        by simp [printAddr], ?_, rfl⟩
+      have := parse_fields_net_broadcast (printDec n) ⟨printDec_ne_nil n, printDec_allDigits n⟩
+        (by rw [decVal_printDec]; omega)
+      rw [decVal_printDec] at this
+      exact this
+  | remoteStation =>
+    simp only [WFAddr] at h
+    obtain ⟨hn, hs⟩ := h
+    cases net with
+    | none => simp [netOK] at hn
+    | some n =>
+      have hn' : n < 65535 := hn
+      cases addr with
+      | none => simp [stationOK] at hs
+      | some bs =>
+        obtain ⟨s, b, hp, st⟩ := printStation_text bs hs
+        obtain ⟨info, hv⟩ := st.val
+        refine ⟨printDec n ++ ':' :: s, ⟨.remoteStation, some n, some bs, info⟩,
+          by simp [printAddr, hp], ?_, rfl⟩
+        rw [parse_net (printDec n) s b (printDec_ne_nil n) (printDec_allDigits n) st.nl st.body]
+        have := (interp_station (.net (printDec n)) b bs info st.notstar hv).2 (printDec n) rfl
+          (by rw [decVal_printDec]; exact hn')
+        rw [decVal_printDec] at this
+        exact this
+
+-- non-vacuity: concrete well-formed addresses of every printed shape
+example : WFAddr ⟨.remoteStation, some 65534, some [192, 168, 0, 10, 0xBA, 0xC1], none⟩ := by decide
+example : WFAddr ⟨.localStation, none, some [1, 2, 3, 4, 5, 6, 7], none⟩ := by decide
+example : WFAddr ⟨.remoteBroadcast, some 0, none, none⟩ := by decide
+example : printAddr ⟨.remoteStation, some 65534, some [192, 168, 0, 10, 0xBA, 0xC1], none⟩ =
+    .ok "65534:192.168.0.10:47809".toList := by decide +kernel
+example : printAddr ⟨.localStation, none, some [192, 168, 0, 10, 0xBA, 0xD0], none⟩ =
+    .ok "0xc0a8000abad0".toList := by decide +kernel
+
+/-- every text the parser accepts denotes an address that prints and re-parses
+    to an equal address (`parse ∘ print` is the identity on parse results, up to `==`) -/
+theorem parse_print_parse (t : List Char) (a : Addr) (h : parse t = .ok a) :
+    ∃ s a', printAddr a = .ok s ∧ parse s = .ok a' ∧ addrEq a' a = true := by
+  obtain ⟨s, a', h1, h2, h3⟩ := print_parse a (parse_wf t a h)
+  refine ⟨s, a', h1, h2, ?_⟩
+  simp only [eqKey, Prod.mk.injEq] at h3
+  simp [addrEq, h3.1, h3.2.1, h3.2.2]
+
+/-! ## equality and hashing -/
+
+theorem code_inj (a b : AType) (h : a.code = b.code) : a = b := by
+  cases a <;> cases b <;> simp [AType.code] at h <;> rfl
+
+/-- `__eq__` compares exactly the key `(type, net, octets)` -/
+theorem eq_iff_key (a b : Addr) : addrEq a b = true ↔ eqKey a = eqKey b := by
+  simp [addrEq, eqKey, and_assoc]
+
+theorem eq_refl (a : Addr) : addrEq a a = true := by simp [addrEq]
+
+theorem eq_symm (a b : Addr) (h : addrEq a b = true) : addrEq b a = true := by
+  rw [eq_iff_key] at h ⊢; exact h.symm
+
+theorem eq_trans (a b c : Addr) (h1 : addrEq a b = true) (h2 : addrEq b c = true) :
+    addrEq a c = true := by
+  rw [eq_iff_key] at h1 h2 ⊢; exact h1.trans h2
+
+/-- equal addresses hash equally: what `__hash__` hashes is determined by the key -/
+theorem eq_hash (a b : Addr) (h : addrEq a b = true) : hashKey a = hashKey b := by
+  rw [eq_iff_key] at h
+  simp only [eqKey, Prod.mk.injEq] at h
+  simp [hashKey, h.1, h.2.1, h.2.2]
+
+/-- and conversely the hashed tuple determines equality (distinct addresses
+    are distinct dictionary keys) -/
+theorem hash_eq (a b : Addr) (h : hashKey a = hashKey b) : addrEq a b = true := by
+  simp only [hashKey, Prod.mk.injEq] at h
+  simp [addrEq, h.1, h.2.1, h.2.2.1]
+
+/-- equality means same type, same network, same octets -/
+theorem eq_fields (a b : Addr) (h : addrEq a b = true) :
+    a.ty = b.ty ∧ a.net = b.net ∧ a.addr = b.addr := by
+  rw [eq_iff_key] at h
+  simp only [eqKey, Prod.mk.injEq] at h
+  exact ⟨code_inj _ _ h.1, h.2.1, h.2.2⟩
+
+-- different spellings of one address are equal and hash equally (test, by evaluation)
+example : (do let a ← parse "0x0102030 4bac0".toList; pure a : Except Err Addr).isOk = false := by
+  decide +kernel
+example : (do
+    let a ← parse "1.2.3.4".toList
+    let b ← parse "0x01020304BAC0".toList
+    let c ← ofTupleInt 16909060 47808
+    let d ← parse "1.2.3.4/8:47808".toList
+    pure (addrEq a b && addrEq b c && addrEq c d && hashKey a == hashKey d) : Except Err Bool)
+    = .ok true := by decide +kernel
+
 end BacVerif.C18
